@@ -67,6 +67,8 @@ def corpus():
         "obs|3|2,N,N|obs 0 0 any.1 t.value.1.1 then;get 0 child 100;addt 0 xchild 2;set 0 xchild 1",
         "obs|3|N,N,N|obs 0 0 meta.1 t.value.1.0 then;addt 0 xchild 2;set 0 xchild 1;addt 0 items 3;set 0 items 2;"
         "addt 1 xchild 6;set 1 xchild 2;addt 2 xchild 4",
+        "obs|3|N,N,N|obs 0 0 any.1;addt 0 l2 0;get 0 l2 100;la 100 1;addt 0 l2 0",
+        "#obs|3|N,N,N|obs 0 0 any.1;obs 0 1 any.1;adhoc 0 1;adhoc 1 2",
         # value-equal but distinct objects (header `~class`): a dict value replaced by an equal object is
         # re-tracked; an identity- / none-compared trait reports an equal replacement
         "obs|3|N~2,N~1,N~2|setd 1 byname 100 [0:2];obs 0 1 t.byname.1.0 di.1.0 then t.value.1.0 then;ds 100 0 0;ds 100 0 2",
